@@ -193,6 +193,14 @@ def run_dm(ctx, case):
     nrm = gm.dm_to_gellmann_norm(ref.with_layout(rho, layout))
     ctx.close(gm.dm_to_gellmann_norm(rin), np.linalg.norm(b_ref[..., :-1], axis=-1), 1e-10, 'Gell-Mann norm = |Bloch vector| (input as handed over: numpy or torch)')
     ctx.close(nrm, np.linalg.norm(b_ref[..., :-1], axis=-1), 1e-10, 'Gell-Mann norm = |Bloch vector|')
+    # states very close to the maximally mixed state: the norm is that of the (tiny) traceless part, to relative accuracy
+    eps_ = 10.0 ** -(4 + case['prng'] % 7)
+    Hh = ref.rand_hermitian(r, d)
+    Hh = Hh - np.trace(Hh).real / d * np.eye(d)
+    near = np.eye(d) / d + eps_ * Hh
+    want_n = eps_ * float(np.sqrt((np.abs(Hh) ** 2).sum() / 2))
+    ctx.close(gm.dm_to_gellmann_norm(_cast(near, backend, 64)), want_n, 1e-6, 'Gell-Mann norm of I/d + eps H = eps |H|_F / sqrt 2 (relative accuracy near the maximally mixed state)', want_n)
+    ctx.close(gm.dm_to_gellmann_norm(_cast(np.eye(d) / d, backend, 64)), 0, 1e-15, 'Gell-Mann norm of the maximally mixed state = 0')
     # unnormalised Hermitian input: the norm ignores the trace part
     if len(shape) == 0:
         s = ref.rand_dm(r, d, max(1, rank - 1) if rank > 1 else d)
